@@ -145,11 +145,12 @@ Print Assumptions C10_attempts_pairwise_identical.
 
 (* ... and that request is the caller's: method, query, request cookies then client cookies
    (once), the complete body *)
-Theorem C10_first_wire_method_query : forall detect c s,
+Theorem C10_first_wire_method_path_query : forall detect c s,
   w_method (wire_of c (prepare detect c s)) = r_method s /\
+  w_path (wire_of c (prepare detect c s)) = wire_path c s /\
   w_query (wire_of c (prepare detect c s)) = wire_query c s.
 Proof. exact first_wire_method_query. Qed.
-Print Assumptions C10_first_wire_method_query.
+Print Assumptions C10_first_wire_method_path_query.
 
 Theorem C10_first_wire_cookies : forall detect c s,
   (r_attempt s <= 0)%Z ->
@@ -158,10 +159,19 @@ Proof. exact first_wire_cookies. Qed.
 Print Assumptions C10_first_wire_cookies.
 
 Theorem C10_first_wire_body : forall detect c s,
-  payload_forbid c (r_method s) = false -> c_form c = [] -> r_form s = [] ->
+  payload_forbid c (r_method s) = false -> c_form c = [] -> r_form s = [] -> r_ordered s = [] ->
   w_body (wire_of c (prepare detect c s)) = body_now s.
 Proof. exact first_wire_body. Qed.
 Print Assumptions C10_first_wire_body.
+
+(* ordered form data: the pairs in the caller's order, then the plain form data (client values
+   merged once) *)
+Theorem C10_first_wire_ordered_body : forall detect c s,
+  payload_forbid c (r_method s) = false -> r_ordered s <> [] -> (r_attempt s <= 0)%Z ->
+  w_body (wire_of c (prepare detect c s)) =
+    Some (ordered_encode (r_ordered s) (if nonempty (c_form c) then add_values (c_form c) (r_form s) else r_form s)).
+Proof. exact first_wire_ordered_body. Qed.
+Print Assumptions C10_first_wire_ordered_body.
 
 Theorem C10_first_wire_no_payload : forall detect c s,
   payload_forbid c (r_method s) = true -> w_body (wire_of c (prepare detect c s)) = None.
